@@ -132,4 +132,32 @@ CHECKS = {
                 'directory, absolute and `..` names must be rejected, and every dir-contents / exists verdict must equal the reference.',
         'note': _TB + '; symlink loops, `.`/empty name components and unanchored name regexes are not generated',
     },
+    'C14': {
+        'category': 'exploration',
+        'technique': 'runtime monitoring: shadow-state monitor on every text-source object (all accessors, before/after freeze) inside real runs + metamorphic families of assertions that must agree, under a sweep of mem_buff_size',
+        'text': 'A corpus of texts with control characters that some line-splitting routines treat as line breaks, CR LF, missing final '
+                'newline and multi-byte characters x {file, action output, program output} x identity-denoting transformer wrappers x '
+                'mem_buff_size in {1,2,3,len-1,len,len+1,8192} is run through ~47 assertions per case grouped in families that must agree '
+                '(M, identity-wrapped M, ( M && M ), conjunct permutations reading through as_str/as_lines/as_file/external program, every '
+                'kind of expected-text source for equals). Inside every run M4 compares each observation of each text source with the '
+                'first one (value, and division into lines at \\n only).',
+        'note': _TB + '; one open known finding (CR LF files: universal-newline reading vs raw bytes)',
+    },
+    'C05': {
+        'category': 'exploration',
+        'technique': 'runtime monitoring: verdicts and transformer outputs of the real program compared with a reference evaluator written from the manual (polarity batching, bisection on disagreement)',
+        'text': 'About 125 matcher primitives and 105 transformer primitives x 64 fixed texts (deterministic core) plus seeded expression-text '
+                'pairs: every assertion is emitted in the polarity the reference predicts (so a case must PASS, or FAIL at exactly the one '
+                'deliberately wrong line), transformer outputs are read from the kept sandbox and compared byte for byte; three kinds of '
+                'tested-text source and five kinds of expected-text source drive all four comparison strategies of equals.',
+        'note': _TB + '; Python re is trusted; run matchers/transformers, control characters (C14) and hostile layout (C06) are left to other checks',
+    },
+    'C09': {
+        'category': 'exploration',
+        'technique': 'runtime monitoring: file contents / probe argv / list elements / created file names compared with an independent reader of the documented string syntax (no shlex)',
+        'text': 'Every string of <=3 symbols over a 15-symbol hostile alphabet, every split into <=3 fragments, every admissible quoting '
+                '(~65000 renderings) followed by every kind of next token; all single and pairs of look-alike here-document body lines; '
+                'unterminated quotes/here-documents must be SYNTAX_ERROR located at the instruction; plus seeded longer strings.',
+        'note': _TB + '; quoted fragments spanning lines, CR/FF/NUL are not generated; two open known findings (mixed-quote token, here-document marker charset)',
+    },
 }
